@@ -306,6 +306,12 @@ func (e *Engine) Structural() []*Obligation {
 			key := sname + "." + st.Field(i).Name()
 			_, declared := e.cs.Fields[key]
 			add("field.declared("+key+")@package", []string{"C20"}, declared, e.pos(st.Field(i).Pos()), "shared field without a class declaration")
+			if fd := e.cs.Fields[key]; fd != nil && fd.Class == "owned_by" {
+				// the owners are functions, not activations: two loops of consecutive terms can overlap, so a field
+				// that is only protected by "these functions alone touch it" has to be an atomic
+				ts := types.TypeString(st.Field(i).Type(), nil)
+				add("atomic.owned_field("+key+")@package", propsOfField(fd, "C20"), strings.HasPrefix(ts, "sync/atomic."), e.pos(st.Field(i).Pos()), "a field owned by functions (not by a lock) must be of a sync/atomic type: activations of its owners can overlap")
+			}
 			if fd := e.cs.Fields[key]; fd != nil && fd.Class != "guarded_by" {
 				if bad := unsafeLibraryType(st.Field(i).Type(), 0); bad != "" {
 					add("threadsafe.field("+key+")@package", []string{"C20"}, false, e.pos(st.Field(i).Pos()), "shared field reaches a "+bad+", which is not safe for concurrent use, and is not guarded by a lock")
